@@ -68,12 +68,45 @@ func (h *histState) oraclePhase() {
 			h.log.Add("harness: reference rejects configuration %d: %s", rec.cfg, R.CfgErr)
 			continue
 		}
+		if R.Hung {
+			h.log.Add("harness: the reference process for op %d did not finish", rec.op)
+			continue
+		}
 		var R0, RW *OracleResp
 		if spec != nil {
 			R0 = ref(kind, o.spec.DER, "", nil, "")
 			if spec.Ill != "" {
 				RW = ref(kind, o.spec.DER, spec.TextWithoutIll, nil, "")
 			}
+		}
+		if rec.inject != "" {
+			// a panic was injected into whichever rule executed a seeded statement of this call: exactly
+			// that rule must report fatal (the framework's recovered-panic report), every other result
+			// must be what it is without the fault, and the call must have returned normally (C01 monitor)
+			var diff []string
+			for _, n := range sortedKeys(rec.canon.Results) {
+				if exp, ok := R.Results[n]; ok && R.Panics[n] == "" && rec.canon.Results[n] != exp {
+					diff = append(diff, n)
+				}
+			}
+			h.checks += len(rec.canon.Results)
+			switch {
+			case len(diff) == 0:
+				h.ctr.inc("injected_panic_without_effect")
+			case len(diff) == 1 && rec.canon.Results[diff[0]].S == 7 && strings.Contains(rec.canon.Results[diff[0]].D, "zsim-injected-fault"):
+				h.ctr.inc("injected_panic_contained")
+				h.mark("inject_lints", diff[0])
+			case len(diff) == 1:
+				h.violate(Violation{Property: "C01", Class: "panic_not_fatal", Lint: diff[0], Op: rec.op, Site: rec.inject,
+					Detail:   "a panic injected into a running rule at " + rec.inject + " did not come back as that lint's fatal result carrying the panic",
+					Expected: "fatal: ... zsim-injected-fault at " + rec.inject, Got: rec.canon.Results[diff[0]].String()})
+			default:
+				h.violate(Violation{Property: "C01", Class: "panic_collateral", Lint: diff[0], Op: rec.op, Site: rec.inject,
+					Detail: fmt.Sprintf("a panic injected into one running rule at %s changed the results of %d lints of the same call: %v", rec.inject, len(diff), diff)})
+				h.violate(Violation{Property: "C04", Class: "panic_collateral", Lint: diff[0], Op: rec.op, Site: rec.inject,
+					Detail: fmt.Sprintf("a panic injected into one running rule at %s changed the results of %d lints of the same call: %v", rec.inject, len(diff), diff)})
+			}
+			continue
 		}
 		for _, n := range sortedKeys(rec.canon.Results) {
 			got := rec.canon.Results[n]
@@ -195,7 +228,7 @@ func (h *histState) pairwise() {
 	groups := map[string][]*lintRecord{}
 	var order []string
 	for _, rec := range h.recs {
-		if rec.canon.Panic != "" {
+		if rec.canon.Panic != "" || rec.inject != "" {
 			continue
 		}
 		k := shortHash(string(h.objs[rec.obj].spec.DER)) + "|" + shortHash(h.cfgText(rec.cfg))
